@@ -51,6 +51,9 @@ def work(tasks, idx):
         if fmt == "android-key" and rootcfg in ("none", "only-other-format", "other-root"):
             pass  # x5c's own root is then simply not a known root
         e = _reg.expectation(req, roots)
+        work.n = getattr(work, "n", 0) + 1
+        e["roots_shape"] = ["list", "tuple", "generator", "iter", "map"][work.n % 5]
+        res.count("roots-shape:" + e["roots_shape"])
         c = r.credential
         code, _ = _reg.eval_reg(tie, res, c, e, label=[fmt, nint, order, fault, rootcfg])
         res.nontrivial.add((fmt, choice, nint, order, fault, rootcfg, extras))
